@@ -244,8 +244,21 @@ pub fn run_csiw(c: &Case) -> Obs {
         Ok(p) => p,
         Err(e) => return Obs::fail("-", "csi-written-file-not-bgzf", format!("{e} {}", c.line())),
     };
+    let aback = fmt_csi_res(&async_csi(file.clone()));
     let back = nv::guarded(move || csi::io::Reader::new(Cursor::new(file)).read_index());
     let valid = c.args.get(5).map(|s| s == "valid").unwrap_or(false);
+    let sback = match &back {
+        Outcome::Panicked(_) => "Panic".to_string(),
+        Outcome::Done(Err(_)) => "Err".into(),
+        Outcome::Done(Ok(b)) => fmt_csi(b),
+    };
+    if aback != sback {
+        return Obs::fail(
+            format!("{} {}", nv::hex(&payload), sback),
+            "csi-async-reader-differs-from-sync",
+            format!("sync={sback} async={aback} {}", c.line()),
+        );
+    }
     match back {
         Outcome::Panicked(m) => Obs::fail(format!("{} Panic", nv::hex(&payload)), "csi-read-panic", format!("{m} {}", c.line())),
         Outcome::Done(Err(e)) => {
@@ -302,8 +315,21 @@ pub fn run_tbiw(c: &Case) -> Obs {
         Ok(p) => p,
         Err(e) => return Obs::fail("-", "tbi-written-file-not-bgzf", format!("{e} {}", c.line())),
     };
+    let aback = fmt_tbi_res(&async_tbi(file.clone()));
     let back = nv::guarded(move || tabix::io::Reader::new(Cursor::new(file)).read_index());
     let valid = c.args.get(3).map(|s| s == "valid").unwrap_or(false);
+    let sback = match &back {
+        Outcome::Panicked(_) => "Panic".to_string(),
+        Outcome::Done(Err(_)) => "Err".into(),
+        Outcome::Done(Ok(b)) => fmt_tbi(b),
+    };
+    if aback != sback {
+        return Obs::fail(
+            format!("{} {}", nv::hex(&payload), sback),
+            "tbi-async-reader-differs-from-sync",
+            format!("sync={sback} async={aback} {}", c.line()),
+        );
+    }
     match back {
         Outcome::Panicked(m) => Obs::fail(format!("{} Panic", nv::hex(&payload)), "tbi-read-panic", format!("{m} {}", c.line())),
         Outcome::Done(Err(e)) => {
@@ -441,7 +467,9 @@ fn gen_ids(rng: &mut Rng, d: u64, valid: bool) -> Vec<u64> {
 }
 
 fn gen_chunks(rng: &mut Rng) -> Vec<(u64, u64)> {
-    (0..rng.range(0, 3)).map(|_| (gen_u64(rng), gen_u64(rng))).collect()
+    (0..rng.range(0, 3))
+        .map(|i| if i == 0 && rng.chance(1, 4) { (0, gen_u64(rng)) } else { (gen_u64(rng), gen_u64(rng)) })
+        .collect()
 }
 fn gen_meta_text(rng: &mut Rng) -> String {
     if rng.chance(1, 2) {
@@ -476,10 +504,17 @@ pub fn gen_csiw(rng: &mut Rng, w: &mut CaseWriter) {
                     }
                 }
             }
-            let base = gen_u64(rng) >> 8;
+            // first record at virtual position 0: loffsets (own and chain minima) equal to 0
+            let base = if rng.chance(1, 3) { 0 } else { gen_u64(rng) >> 8 };
             let loffs: Vec<(u64, u64)> = keys
                 .iter()
-                .map(|&k| (k, if rng.chance(1, 6) { gen_u64(rng) } else { base + rng.below(50) }))
+                .map(|&k| {
+                    (k, match rng.below(6) {
+                        0 => gen_u64(rng),
+                        1 => base,
+                        _ => base + rng.below(50),
+                    })
+                })
                 .collect();
             // the metadata pseudo-bin needs Bin::metadata_id(depth): depth <= 10 or the writer panics
             let meta = gen_meta_text(rng);
@@ -800,6 +835,13 @@ pub fn run_faiw(c: &Case) -> Obs {
     }
     let back = read_fai_text(text.clone());
     let o = format!("{} {}", nv::hex(&text), back);
+    let aback = match async_fai(text.clone()) {
+        Ok(i) => fmt_fai(i.as_ref()),
+        Err(e) => e,
+    };
+    if aback != back {
+        return Obs::fail(o, "fai-async-reader-differs-from-sync", format!("sync={back} async={aback} {}", c.line()));
+    }
     if !names_ok {
         return Obs { obs: o, verdict: "skip".into(), nontrivial: false };
     }
@@ -849,6 +891,13 @@ pub fn run_craiw(c: &Case) -> Obs {
         Outcome::Done(Ok(i)) => fmt_crai(&i),
     };
     let o = format!("{} {}", nv::hex(&text), back);
+    let aback = match async_crai(gz.clone()) {
+        Ok(i) => fmt_crai(&i),
+        Err(e) => e,
+    };
+    if aback != back {
+        return Obs::fail(o, "crai-async-reader-differs-from-sync", format!("sync={back} async={aback} {}", c.line()));
+    }
     if !valid {
         return Obs { obs: o, verdict: "skip".into(), nontrivial: false };
     }
@@ -982,4 +1031,52 @@ pub fn gen_craiw(rng: &mut Rng, w: &mut CaseWriter) {
 
 pub fn gen_crair(rng: &mut Rng, w: &mut CaseWriter) {
     w.push("crair", vec![nv::hex(&gen_text(rng, 6, false))]);
+}
+
+// ==========================================================================================
+// the ASYNC index readers (tokio current-thread runtime): every index that is written is also read
+// back with the async reader, which must return the same index as the sync reader -- and hence
+// the written one, field by field (bins, chunks, loffsets including 0, metadata pseudo-bins,
+// n_no_coor, header).  Result: Ok(index) | Err("Err" | "Panic").
+
+pub fn block_on<F: std::future::Future>(f: F) -> F::Output {
+    tokio::runtime::Builder::new_current_thread().build().unwrap().block_on(f)
+}
+fn arun<T>(f: impl FnOnce() -> std::io::Result<T> + std::panic::UnwindSafe) -> Result<T, String> {
+    match nv::guarded(f) {
+        Outcome::Panicked(_) => Err("Panic".into()),
+        Outcome::Done(Err(_)) => Err("Err".into()),
+        Outcome::Done(Ok(x)) => Ok(x),
+    }
+}
+pub fn async_csi(file: Vec<u8>) -> Result<csi::Index, String> {
+    arun(move || block_on(async move { csi::r#async::io::Reader::new(&file[..]).read_index().await }))
+}
+pub fn async_tbi(file: Vec<u8>) -> Result<tabix::Index, String> {
+    arun(move || block_on(async move { tabix::r#async::io::Reader::new(&file[..]).read_index().await }))
+}
+pub fn async_bai(file: Vec<u8>) -> Result<noodles_bam::bai::Index, String> {
+    arun(move || block_on(async move { noodles_bam::bai::r#async::io::Reader::new(&file[..]).read_index().await }))
+}
+pub fn async_gzi(file: Vec<u8>) -> Result<bgzf::gzi::Index, String> {
+    arun(move || block_on(async move { bgzf::gzi::r#async::io::Reader::new(&file[..]).read_index().await }))
+}
+pub fn async_fai(text: Vec<u8>) -> Result<noodles_fasta::fai::Index, String> {
+    arun(move || block_on(async move { noodles_fasta::fai::r#async::io::Reader::new(&text[..]).read_index().await }))
+}
+pub fn async_crai(gz: Vec<u8>) -> Result<noodles_cram::crai::Index, String> {
+    arun(move || block_on(async move { noodles_cram::crai::r#async::io::Reader::new(&gz[..]).read_index().await }))
+}
+
+pub fn fmt_csi_res(r: &Result<csi::Index, String>) -> String {
+    match r {
+        Ok(i) => fmt_csi(i),
+        Err(e) => e.clone(),
+    }
+}
+pub fn fmt_tbi_res(r: &Result<tabix::Index, String>) -> String {
+    match r {
+        Ok(i) => fmt_tbi(i),
+        Err(e) => e.clone(),
+    }
 }
